@@ -31,6 +31,9 @@ impl Tier {
 }
 
 pub fn silence_panics() {
+    if std::env::var("WAXMC_SHOW_PANICS").is_ok() {
+        return;
+    }
     std::panic::set_hook(Box::new(|_| {}));
 }
 
